@@ -762,3 +762,76 @@ def rule_s8(ctx, rule: str, modules: tuple, consequence: str):
                       how="attribute reads and weak-reference dereferences of the memoised body and its package callees (2 levels) × "
                       "mutability of each attribute (setter, assignment outside constructors, properties computed from such)",
                       construct=f"memoised {f.local}: {short(norm(hz[0][0])) if hz else ''}")
+
+
+# ------------------------------------------------------------------------------------------------------
+# Shared rule S9 — composite names are parsed with bounded splits.  The serializer builds names by joining
+# components with separators (f"{domain}::{function}", f"{qualified}/{value_name}"); the components are free text and
+# may contain the separators.  The parser of such a name must split at the first (or last) occurrence only -
+# partition/rpartition or split(sep, 1): an unbounded split followed by a length test or a fixed-size unpacking
+# rejects exactly the names whose free component contains the separator, so what was written is not read back.
+# ------------------------------------------------------------------------------------------------------
+import re as _re
+
+
+def composite_name_separators(m) -> set[str]:
+    seps = set()
+    for f in m.all_funcs:
+        if isinstance(f.node, ast.Lambda):
+            continue
+        for n in own_nodes(f.node):
+            if isinstance(n, ast.JoinedStr):
+                consts = [v.value for v in n.values if isinstance(v, ast.Constant)]
+                fvs = [v for v in n.values if isinstance(v, ast.FormattedValue)]
+                if len(fvs) >= 2 and consts and all(isinstance(c, str) and _re.fullmatch(r"[^\w\s'\"(){}\[\]<>=,.%]+", c) for c in consts):
+                    seps.update(consts)
+    return seps
+
+
+def composite_name_parsers(repo, module="onnx_ir.serde"):
+    """[(FuncInfo, split call, separator, ok, why)] for every split of a composite name in the module."""
+    m = repo.modules[module]
+    seps = composite_name_separators(m)
+    out = []
+    for f in m.all_funcs:
+        if isinstance(f.node, ast.Lambda):
+            continue
+        for n in own_nodes(f.node):
+            if not (isinstance(n, ast.Call) and isinstance(n.func, ast.Attribute) and n.func.attr in ("split", "rsplit", "partition", "rpartition")):
+                continue
+            if not (n.args and isinstance(n.args[0], ast.Constant) and n.args[0].value in seps):
+                continue
+            sep = n.args[0].value
+            bounded = n.func.attr in ("partition", "rpartition") or len(n.args) >= 2 or any(k.arg == "maxsplit" for k in n.keywords)
+            why = ""
+            if not bounded:
+                # what happens to the parts: fixed-size unpacking or a length test
+                p = getattr(n, "_parent", None)
+                if isinstance(p, ast.Assign) and any(isinstance(t, (ast.Tuple, ast.List)) for t in p.targets):
+                    why = "unpacked into a fixed number of names"
+                elif isinstance(p, ast.Assign) and len(p.targets) == 1 and isinstance(p.targets[0], ast.Name):
+                    v = p.targets[0].id
+                    for x in own_nodes(f.node):
+                        if isinstance(x, ast.Compare) and any(isinstance(y, ast.Call) and dotted_of(y.func) == "len" and y.args and isinstance(y.args[0], ast.Name)
+                                                              and y.args[0].id == v for y in ast.walk(x)):
+                            why = f"length of the parts tested (`{norm(x)}`)"
+                            break
+                        if isinstance(x, ast.Assign) and isinstance(x.value, ast.Name) and x.value.id == v and any(isinstance(t, (ast.Tuple, ast.List)) for t in x.targets):
+                            why = "unpacked into a fixed number of names"
+                            break
+                else:
+                    why = "used as a whole"
+            out.append((f, n, sep, bounded or not why or why == "used as a whole", why))
+    return out
+
+
+def rule_s9(ctx, rule: str, consequence: str):
+    n = 0
+    for f, call, sep, ok, why in composite_name_parsers(ctx.repo):
+        n += 1
+        ctx.check(rule, f"S9 {f.local}: `{norm(call)}` splits the composite name at one occurrence of {sep!r}", ok, f, call,
+                  f"`{norm(call)}` splits at every {sep!r} and the result is {why}: a name whose free-text component contains {sep!r} - which the "
+                  f"serializer writes as it is - is not recognised when read back; {consequence}",
+                  how="separators of the module's composite-name f-strings × split calls on those separators (partition / maxsplit=1 vs unbounded + length test)",
+                  construct=f"unbounded split on {sep!r}")
+    ctx.require(n >= 2, "no parser of composite names found in serde (format {domain}::{function}/{value} expected)")
